@@ -1,7 +1,7 @@
 (* Theorems about @inject (C19). *)
 From Coq Require Import String.
 From Coq Require Import List Bool Arith Lia.
-From Asphalt Require Import Ctx.ResModel Ctx.ResProofs Ctx.ResInv Ctx.InjectModel.
+From Asphalt Require Import Ctx.ResModel Ctx.ResProofs Ctx.ResInv Ctx.InjectModel Gen.Gen_inject.
 Import ListNotations.
 Open Scope string_scope.
 Open Scope list_scope.
@@ -131,3 +131,16 @@ Proof.
   destruct (local_step (lookup_action c tok d) x) as [x1 o]. simpl in *.
   destruct o; simpl; auto.
 Qed.
+
+(* ---------- which explicit call each kind of dependency stands for (computed from Gen/Gen_inject.v) ---------- *)
+Theorem the_explicit_calls : forall tok name t,
+  lookup_action false tok (Dep name (ATy t)) = AGetNowait t name false /\
+  lookup_action false tok (Dep name (AOpt t)) = AGetNowait t name true /\
+  lookup_action true tok (Dep name (ATy t)) = AGetBegin tok t name false /\
+  lookup_action true tok (Dep name (AOpt t)) = AGetBegin tok t name true.
+Proof. intros. repeat split. Qed.
+
+Theorem inject_source_shape :
+  inj_context_at_call_time = true /\ inj_in_signature_order = true /\ inj_added_as_keywords = true /\
+  inj_sync_uses_nowait = true /\ inj_async_awaits_get_resource = true /\ inj_scan_as_documented = true.
+Proof. repeat split. Qed.
